@@ -27,12 +27,15 @@ RHO = {
     'b': [('-1.0', 'b'), ('-1.00', 'b'), ('-1.000', 'b')],
     'c': [('6.4-2', 'c'), ('6.4e-2', 'c'), ('6.4E-2', 'c'), ('6.4d-2', 'c'), ('6.40D-2', 'c'),
           ('6.4e-02', 'c2')],
-    'd': [('-2.71', 'd'), ('-0.27', 'e'), ('-1.0e1', 'f'), ('-1.0e10', 'g'), ('6.4-3', 'h')],
+    'd': [('-2.71', 'd'), ('-0.27', 'e'), ('-1.0e1', 'f'), ('-1.0e10', 'g'), ('6.4-3', 'h'),
+          # numerically different although close: must never share a composition
+          ('-2.7000004', 'n1'), ('-2.70000041', 'n2'), ('6.4000003-2', 'n3'), ('-2.6999996', 'n4')],
 }
 VAL = {'-2.7': -2.7, '-2.70': -2.7, '-2.700': -2.7, '-2.7e0': -2.7, '-2.7E+0': -2.7,
        '-1.0': -1.0, '-1.00': -1.0, '-1.000': -1.0,
        '6.4-2': 0.064, '6.4e-2': 0.064, '6.4E-2': 0.064, '6.4d-2': 0.064, '6.40D-2': 0.064, '6.4e-02': 0.064,
-       '-2.71': -2.71, '-0.27': -0.27, '-1.0e1': -10.0, '-1.0e10': -1e10, '6.4-3': 0.0064}
+       '-2.71': -2.71, '-0.27': -0.27, '-1.0e1': -10.0, '-1.0e10': -1e10, '6.4-3': 0.0064,
+       '-2.7000004': -2.7000004, '-2.70000041': -2.70000041, '6.4000003-2': 0.064000003, '-2.6999996': -2.6999996}
 ALL_RHO = [x for k in 'abcd' for x in RHO[k]]
 # '6.4e-02' vs '6.4e-2' (zeros inside the exponent), '-2.7' vs '-2.7e0' (zero exponent) and 'e0' vs 'E+0'
 # (explicit exponent sign) are not documented spelling classes: both groupings are accepted there, only
